@@ -358,6 +358,14 @@ class Ctx:
             # n ABI temporaries in one routine (frame->scratch fallback past 128 locals)
             xs = [abi.Uint64() for _ in range(s[1])]
             return pt.Seq(*[x.set(pt.Int(i)) for i, x in enumerate(xs)], pt.Pop(xs[-1].get()))
+        if k == "opup":
+            src = {"credit": pt.OpUpFeeSource.GroupCredit, "app": pt.OpUpFeeSource.AppAccount, "any": pt.OpUpFeeSource.Any}[s[3]]
+            up = pt.OpUp(pt.OpUpMode.OnCall) if s[1] == "oncall" else pt.OpUp(pt.OpUpMode.Explicit, pt.Int(1))
+            return up.ensure_budget(pt.Int(s[2]), src)
+        if k == "mcall":
+            return pt.InnerTxnBuilder.ExecuteMethodCall(app_id=pt.Int(1), method_signature=s[1], args=[self.arg(a) for a in s[2]])
+        if k == "pragma":
+            return pt.Pragma(self.stmt(s[2]), compiler_version=s[1])
         if k == "itxn":
             return pt.Seq(
                 pt.InnerTxnBuilder.Begin(),
@@ -511,6 +519,8 @@ class ProgramEnv:
             self.built.append(self.main_ctx.stmt(st[1]))
         elif k == "final":
             self.ast = pt.Seq(*self.built, self.main_ctx.expr(st[1]))
+            if self.spec.get("nonce"):
+                self.ast = pt.Nonce(self.spec["nonce"][0], self.spec["nonce"][1], self.ast)
         elif k == "router_new":
             self.router = self._router_new(st[1])
         elif k == "add_method":
